@@ -509,12 +509,19 @@ def run_case(case):
             # an object of ANOTHER class that lives in the holder's own buffer and converts to the slot's type (a struct
             # class with the same fields under another name; a static array for a dynamic-array target): it is data,
             # not "that very object" - a new independent object of the recorded type must be created
-            slots = [(pth, rs) for pth, rs in mat.ref_slots(spec, model) if rs["k"] == "ref" and _lookalike_ok(rs["to"])]
+            slots = []
+            for pth, rs in mat.ref_slots(spec, model):
+                rn_, _ = mat.node_at(node, model, pth)
+                for mi_, tn_ in target_candidates(rn_):
+                    if rs["k"] == "ref" and _lookalike_ok(tn_.spec):
+                        slots.append((pth, rs, mi_, tn_))
+                    elif rs["k"] == "unionref" and tn_.spec["k"] == "array" and tn_.spec["item"]["k"] == "scalar" and len(tn_.spec["shape"]) >= 2:
+                        slots.append((pth, rs, mi_, tn_))  # union member and its same-named twin of another axis order
             if not slots:
                 continue
-            path, rspec = slots[op["i"] % len(slots)]
-            rnode, _ = mat.node_at(node, model, path)
-            tnode = rnode.kids[0]
+            path, rspec, mi, tnode = slots[op["i"] % len(slots)]
+            if rspec["k"] == "unionref":
+                labels.add("op:bind_lookalike_union_member_twin")
             val = fresh_value(tnode.spec, op["w"], si)
             look = sut(_make_lookalike, tnode, val, A)
             if is_raised(look):
@@ -532,7 +539,7 @@ def run_case(case):
                     return r2
                 continue
             aliases.pop(slot_key(path)[0], None)
-            mat.model_set(spec, model, path, copy.deepcopy(val))
+            mat.model_set(spec, model, path, [mi, copy.deepcopy(val)] if rspec["k"] == "unionref" else copy.deepcopy(val))
             h = sut(lambda: mat.obj_get(holder, node, path + [["d"]])[0])
             if is_raised(h) or h is None:
                 return fail("bound_slot_unreadable", f"{step} slot {path}: {h}", "lookalike", labels)
